@@ -5,6 +5,7 @@ import (
 	"fmt"
 	"os"
 	"runtime"
+	"runtime/debug"
 	"sort"
 	"strings"
 	"sync"
@@ -18,13 +19,15 @@ func TestCheck(t *testing.T) { enumx.Main(t, "C17", "readonly", run) }
 
 // Case is the replay value: a scenario and a spare-capacity layout.
 type Case struct {
-	Scenario string `json:"scenario"`
-	Spare    []int  `json:"spare"`
-	Adjacent []int  `json:"adjacent,omitempty"` // {a, b}: argument b directly behind argument a
-	Layout   string `json:"layout"`
-	AfterGC  bool   `json:"after_gc,omitempty"` // the write was seen when the arena was re-verified after garbage collection
-	Earlier  *Case  `json:"earlier,omitempty"`  // sequence: this call ran first; the scenario above wrote to what it returned
-	Hand     *Hand  `json:"hand,omitempty"`     // hand-over pair: result Res of scenario A is argument Arg of the scenario above
+	Scenario  string `json:"scenario"`
+	Spare     []int  `json:"spare"`
+	Adjacent  []int  `json:"adjacent,omitempty"` // {a, b}: argument b directly behind argument a
+	Layout    string `json:"layout"`
+	Protected bool   `json:"protected,omitempty"` // the input arguments were in read-only pages (Spare[0] = spare capacity of each)
+	AlignEnd  bool   `json:"align_end,omitempty"`
+	AfterGC   bool   `json:"after_gc,omitempty"` // the write was seen when the arena was re-verified after garbage collection
+	Earlier   *Case  `json:"earlier,omitempty"`  // sequence: this call ran first; the scenario above wrote to what it returned
+	Hand      *Hand  `json:"hand,omitempty"`     // hand-over pair: result Res of scenario A is argument Arg of the scenario above
 }
 
 // Hand identifies a hand-over pair.
@@ -53,6 +56,19 @@ func run(r *enumx.Run, replay *enumx.ReplayCase) {
 				lay := layout{spare: c.Spare, adj: c.Adjacent}
 				var fs []finding
 				switch {
+				case c.Protected:
+					old := debug.SetPanicOnFault(true)
+					if reg := getRegion(); reg != nil && len(c.Spare) == 1 {
+						all, cases, _ := sc.evaluateProtected(reg)
+						for i, f := range all {
+							if cases[i].Spare[0] == c.Spare[0] && cases[i].AlignEnd == c.AlignEnd {
+								fs = append(fs, f)
+							}
+						}
+						putRegion(reg)
+					}
+					debug.SetPanicOnFault(old)
+					releaseRegions()
 				case c.Hand != nil:
 					if a := byID[c.Hand.A]; a != nil {
 						fs, _ = handOver(a, sc, c.Hand.Res, c.Hand.Arg)
@@ -195,6 +211,48 @@ func run(r *enumx.Run, replay *enumx.ReplayCase) {
 		n = done * batchSize
 	}
 
+	// ---- read-only pages: every scenario with its input arguments in PROT_READ memory
+	protFound := make([][]pending, nb)
+	var protCalls int64
+	if ok, why := protectionWorks(); !ok {
+		r.Incomplete("read-only-page family not run: " + why)
+	} else {
+		pd := r.Parallel(nb, func(bi int) {
+			runtime.LockOSThread()
+			defer runtime.UnlockOSThread()
+			old := debug.SetPanicOnFault(true)
+			defer debug.SetPanicOnFault(old)
+			reg := getRegion()
+			if reg == nil {
+				return
+			}
+			defer putRegion(reg)
+			hi := (bi + 1) * batchSize
+			if hi > len(scs) {
+				hi = len(scs)
+			}
+			var calls int
+			for _, sc := range scs[bi*batchSize : hi] {
+				fs, cs, n := sc.evaluateProtected(reg)
+				calls += n
+				for i, f := range fs {
+					protFound[bi] = append(protFound[bi], pending{f, cs[i]})
+				}
+			}
+			r.Count(int64(calls), int64(calls))
+			mu.Lock()
+			protCalls += int64(calls)
+			mu.Unlock()
+		})
+		releaseRegions()
+		if pd == nb && protErr == nil {
+			r.Space(fmt.Sprintf("read-only pages: all %d scenarios x spare {0,16,64} x {capacity ends at page end, argument starts at page start} = %d calls with every input argument in PROT_READ memory", len(scs), protCalls))
+		} else {
+			r.Incomplete(fmt.Sprintf("read-only pages: %d of %d batches (%v)", pd, nb, protErr))
+		}
+	}
+	r.Set("calls_with_arguments_in_read_only_pages", protCalls)
+
 	// ---- ordered pairs over the function x family alphabet
 	byID := map[string]*scenario{}
 	for _, sc := range scs {
@@ -267,6 +325,11 @@ func run(r *enumx.Run, replay *enumx.ReplayCase) {
 	}
 	runtime.UnlockOSThread()
 	for _, ps := range found {
+		for _, p := range ps {
+			r.Violation(p.f.key, p.f.msg, p.c)
+		}
+	}
+	for _, ps := range protFound {
 		for _, p := range ps {
 			r.Violation(p.f.key, p.f.msg, p.c)
 		}
